@@ -9,3 +9,4 @@ import BitcaskVerif.Props.C15
 #print axioms AcceptBackoff.c15_backoff_survives
 #print axioms AcceptBackoff.c15_backoff_gives_up
 #print axioms AcceptBackoff.c15_backoff_zero_min
+#print axioms AcceptBackoff.c15_backoff_gives_up_only_on_failures
